@@ -11,6 +11,13 @@
   C17.ACC  order-domain: with advertised inclusion == enforced inclusion and advertised exclusion ⊇
            enforced exclusion, every non-zero P with SystemBounds.__contains__(P) true is admitted by
            _check_request, for adjust_power true and false.
+
+How the terms are read (refactor-robust): both functions are walked symbolically (engine/sympath) with
+their simple private helpers spliced in, so every local is substituted into its uses; an accumulation
+loop `acc += inc` is read as `sum(inc for …)` (_c17_util.fold_loops); comprehension variables are
+substituted away (_c17_util.elem_of).  The role of a value is where it flows (which PowerBounds field /
+which Bounds slot of the returned SystemBounds) and which data it reads (battery aggregate of the group /
+the group's inverters), never the name of a local.
 """
 from __future__ import annotations
 
@@ -18,129 +25,365 @@ import ast
 from typing import Any
 
 from ..engine.absint import Obj
-from ..engine.order import Atom, OrderInterp
+from ..engine.normalize import positional
+from ..engine.order import Atom
 from ..engine.report import AnalysisError, Run
-from ..engine.resolver import Program, body_walk
+from ..engine.resolver import FuncNode, Program, walk_no_nested
+from ..engine.sympath import SymUnsupported, sym_block
 from ..engine.util import find_calls, method_call, u
+from ._c17_util import (FIELDS, GROUP, Side, agg_term, bind_target, elem_of, fold_loops, index_fields, is_name,
+                        loop_passes, name, prepared, record_fields, returns_of, set_elem, simple_call, strip_doc)
 
 MC = "timeseries.battery_pool._metric_calculator"
 BMM = "microgrid._power_distributing._component_managers._battery_manager"
 BDA_MOD = "microgrid._power_distributing._distribution_algorithm._battery_distribution_algorithm"
+RESULT_MOD = "microgrid._power_distributing.result"
 BT = "timeseries._base_types"
+AGG_FN = "_aggregate_battery_power_bounds"
 
-FIELDS = {"inclusion_lower": "il", "exclusion_lower": "el", "exclusion_upper": "eu", "inclusion_upper": "iu"}
 INV_ATTR = {"active_power_inclusion_lower_bound": "il", "active_power_exclusion_lower_bound": "el",
             "active_power_exclusion_upper_bound": "eu", "active_power_inclusion_upper_bound": "iu"}
 
 
-def sum_gen(e: ast.AST) -> tuple[ast.AST, list[ast.comprehension]] | None:
-    if isinstance(e, ast.Call) and u(e.func) == "sum" and len(e.args) == 1 and isinstance(
-            e.args[0], (ast.GeneratorExp, ast.ListComp)):
-        return e.args[0].elt, e.args[0].generators
-    return None
+def _is_none(e: ast.AST | None) -> bool:
+    return isinstance(e, ast.Constant) and e.value is None
 
 
-def field_of(e: ast.AST) -> tuple[str, str] | None:
-    """('bat'|'inv', canonical field) for a leaf bound expression."""
-    if isinstance(e, ast.Attribute):
-        if e.attr in FIELDS:
-            base = u(e.value)
-            kind = "bat" if ("bat" in base or "power_bounds" in base) else "inv"
-            return kind, FIELDS[e.attr]
-        if e.attr in INV_ATTR:
-            return "inv", INV_ATTR[e.attr]
-    return None
+def _callee(e: ast.AST) -> str:
+    """Last component of a call's function text (`timeseries.Bounds` -> `Bounds`)."""
+    return u(e.func).split(".")[-1] if isinstance(e, ast.Call) else ""
+
+
+def _is_aggregator(prog: Program, module: Any, e: ast.AST) -> bool:
+    """`e` is a call (one argument) of the shared battery aggregation function."""
+    if not (isinstance(e, ast.Call) and isinstance(e.func, ast.Name) and len(e.args) == 1 and not e.keywords):
+        return False
+    tgt = prog.resolve_name(module, e.func.id)
+    return getattr(tgt, "qual", None) == f"{BDA_MOD}:{AGG_FN}"
+
+
+def _agree(dicts: list[dict[str, Any]]) -> dict[str, Any]:
+    """Terms of several return paths: a field on which they disagree is not a known aggregate."""
+    out = dict(dicts[0])
+    for d in dicts[1:]:
+        for k in set(out) | set(d):
+            if out.get(k) != d.get(k):
+                out[k] = ("other", "the return paths disagree")
+    return out
+
+
+# ------------------------------------------------------------------------------------------ advertised
+def _validated_fn(node: FuncNode, qual: str) -> ast.FunctionDef:
+    """The closure of `calculate` that builds one component's PowerBounds from its metrics."""
+    cands = [n for n in ast.walk(node) if isinstance(n, ast.FunctionDef) and n is not node
+             and find_calls(n, lambda c: _callee(c) == "PowerBounds")]
+    if len(cands) != 1:
+        raise AnalysisError(f"{qual}: closure building PowerBounds from component metrics not found")
+    return cands[0]
 
 
 def advertised(prog: Program) -> dict[str, Any]:
     fn = prog.func(f"{MC}:PowerBoundsCalculator.calculate")
-    loops = [s for s in fn.node.body if isinstance(s, ast.For)]
-    if len(loops) != 1:
-        raise AnalysisError(f"{fn.qual}: group loop not found")
-    out = {}
-    for s in loops[0].body:
-        if isinstance(s, ast.AugAssign) and isinstance(s.op, ast.Add) and isinstance(s.value, ast.Call) \
-                and u(s.value.func) in ("max", "min") and len(s.value.args) == 2:
-            op = u(s.value.func)
-            parts = []
-            for a in s.value.args:
-                sg = sum_gen(a)
-                if sg:
-                    f = field_of(sg[0])
-                    if f is None or len(sg[1]) != 1 or sg[1][0].ifs:
-                        parts.append(("other", ("?", u(a))))
-                    else:
-                        parts.append(("sum_i", f))
-                else:
-                    f = field_of(a)
-                    parts.append(("leaf", f) if f is not None else ("other", ("?", u(a))))
-            out[u(s.target)] = ("sum_g", op, tuple(sorted(parts)))
-    return {"fn": fn, "loop": loops[0], "terms": out}
+    if len(fn.params) != 3:
+        raise AnalysisError(f"{fn.qual}: expected (self, metrics_data, working_batteries)")
+    node = prepared(prog, fn)
+    vfn = _validated_fn(node, fn.qual)
+    vparams = [a.arg for a in vfn.args.args]
+    if len(vparams) != 2:
+        raise AnalysisError(f"{fn.qual}.{vfn.name}: expected (component id, metric ids)")
+    prov: list[tuple[str, str, str]] = []          # (kind, ids the bounds are read for, metric list)
+
+    def vcall(e: ast.AST | None) -> tuple[ast.AST, ast.AST] | None:
+        if isinstance(e, ast.Call) and is_name(e.func, vfn.name):
+            a = positional(e, vparams)
+            if set(a) == set(vparams) and len(e.args) + len(e.keywords) == 2:
+                return a[vparams[0]], a[vparams[1]]
+        return None
+
+    def leaf_bat(e: ast.AST) -> str | None:
+        if isinstance(e, ast.Attribute) and e.attr in FIELDS and _is_aggregator(prog, fn.module, e.value):
+            vc = vcall(elem_of(e.value.args[0]))  # type: ignore[attr-defined]
+            if vc is not None:
+                prov.append(("bat", u(vc[0]), u(vc[1])))
+                return FIELDS[e.attr]
+        return None
+
+    def leaf_inv(e: ast.AST, _roots: list[ast.AST]) -> str | None:
+        if isinstance(e, ast.Attribute) and e.attr in FIELDS:
+            vc = vcall(e.value)
+            if vc is not None:
+                prov.append(("inv", u(vc[0]), u(vc[1])))
+                return FIELDS[e.attr]
+        return None
+
+    side = Side(groups_ok=lambda _r: True, norm=lambda e: e, leaf_bat=leaf_bat, leaf_inv=leaf_inv)
+    per_return: list[dict[str, Any]] = []
+    wiring_ok = True
+    for p in returns_of(node, fn.qual):
+        r = p.ret
+        if not (isinstance(r, ast.Call) and _callee(r) == "SystemBounds" and not r.args):
+            raise AnalysisError(f"{fn.qual}: line {p.lineno}: the result is not a SystemBounds(...) record")
+        kw = {k.arg: k.value for k in r.keywords}
+        inc, exc = kw.get("inclusion_bounds"), kw.get("exclusion_bounds")
+        if _is_none(inc) and _is_none(exc):
+            continue                                # the 'no data' answer
+        slots: dict[str, ast.AST] = {}
+        for zone, val in (("i", inc), ("e", exc)):
+            if isinstance(val, ast.Call) and _callee(val) == "Bounds":
+                a = positional(val, ["lower", "upper"])
+                for slot, key in (("lower", "l"), ("upper", "u")):
+                    w = a.get(slot)
+                    if isinstance(w, ast.Call) and u(w.func) == "Power.from_watts" and len(w.args) == 1 and not w.keywords:
+                        slots[zone + key] = w.args[0]
+        if len(slots) != 4:
+            wiring_ok = False
+            continue
+        per_return.append({role: agg_term(fold_loops(node, e), side) for role, e in slots.items()})
+    if not per_return:
+        wiring_ok = False
+    terms = _agree(per_return) if per_return else {}
+    loops = [s for s in strip_doc(node.body) if isinstance(s, ast.For)
+             and find_calls(s, lambda c: _is_aggregator(prog, fn.module, c))]
+    return {"fn": fn, "node": node, "loop": loops[0] if len(loops) == 1 else fn.node, "terms": terms,
+            "wiring_ok": wiring_ok, "prov": prov, "groups": side.groups, "validated": vfn}
 
 
+# ------------------------------------------------------------------------------------------ enforced
 def enforced(prog: Program) -> dict[str, Any]:
+    """{'fn': _get_bounds, 'terms': PowerBounds field -> aggregation term}  (also used by C02.ADM)."""
     fn = prog.func(f"{BMM}:BatteryManager._get_bounds")
-    calls = find_calls(fn.node, lambda c: u(c.func) == "PowerBounds")
-    if len(calls) != 1:
+    if len(fn.params) != 2:
+        raise AnalysisError(f"{fn.qual}: expected (self, pairs_data)")
+    pairs = fn.params[1]
+    node = prepared(prog, fn)
+    pair_fields = record_fields(prog, BDA_MOD, "InvBatPair")
+    pb_fields = record_fields(prog, RESULT_MOD, "PowerBounds")
+    inv_elem = f"<elem of {GROUP}[1]>"
+
+    def leaf_bat(e: ast.AST) -> str | None:
+        if isinstance(e, ast.Attribute) and e.attr in FIELDS and isinstance(e.value, ast.Attribute) \
+                and e.value.attr == "power_bounds" and u(e.value.value) == f"{GROUP}[0]":
+            return FIELDS[e.attr]
+        return None
+
+    def leaf_inv(e: ast.AST, roots: list[ast.AST]) -> str | None:
+        if isinstance(e, ast.Attribute) and e.attr in INV_ATTR and is_name(e.value, inv_elem) \
+                and len(roots) == 1 and u(roots[0]) == f"{GROUP}[1]":
+            return INV_ATTR[e.attr]
+        return None
+
+    side = Side(groups_ok=lambda r: is_name(r, pairs), norm=lambda e: index_fields(e, GROUP, pair_fields),
+                leaf_bat=leaf_bat, leaf_inv=leaf_inv)
+    per_return = []
+    for p in returns_of(node, fn.qual):
+        r = p.ret
+        if not (isinstance(r, ast.Call) and _callee(r) == "PowerBounds"):
+            raise AnalysisError(f"{fn.qual}: PowerBounds(...) not found")
+        a = positional(r, pb_fields)
+        per_return.append({f: agg_term(fold_loops(node, v), side) for f, v in a.items() if f in pb_fields})
+    if not per_return:
         raise AnalysisError(f"{fn.qual}: PowerBounds(...) not found")
-    out = {}
-    for k in calls[0].keywords:
-        v = k.value
-        sg = sum_gen(v)
-        if sg and isinstance(sg[0], ast.Call) and u(sg[0].func) in ("max", "min"):
-            op = u(sg[0].func)
-            parts = []
-            for a in sg[0].args:
-                inner = sum_gen(a)
-                if inner:
-                    f = field_of(inner[0])
-                    parts.append(("sum_i", f))
-                else:
-                    parts.append(("leaf", field_of(a)))
-            if any(p[1] is None for p in parts) or len(sg[1]) != 1 or sg[1][0].ifs:
-                out[k.arg] = ("other", u(v))
-            else:
-                out[k.arg] = ("sum_g", op, tuple(sorted(parts)))
-        elif isinstance(v, ast.Call) and u(v.func) in ("max", "min") and len(v.args) == 2:
-            op = u(v.func)
-            parts = []
-            for a in v.args:
-                inner = sum_gen(a)
-                f = field_of(inner[0]) if inner and not any(g.ifs for g in inner[1]) else None
-                if f is None:
-                    parts.append(("other", ("?", u(a))))
-                else:
-                    parts.append(("sum_all", f) if len(inner[1]) == 2 or f[0] == "inv" else ("sum_gleaf", f))
-            out[k.arg] = (op, tuple(sorted(parts)))
-        else:
-            out[k.arg] = ("other", u(v))
-    return {"fn": fn, "terms": out}
+    return {"fn": fn, "terms": _agree(per_return)}
 
 
 def min_power_shape_ok(prog: Program) -> tuple[Any, bool]:
-    """min_power_g == max(battery exclusion, min_i inverter exclusion) in the availability ratio."""
+    """min_power_g == max(battery exclusion, min_i inverter exclusion) in the availability ratio
+    (battery = the group's aggregate, i ranges over exactly the group's inverters)."""
     ar = prog.func(f"{BDA_MOD}:BatteryDistributionAlgorithm._compute_battery_availability_ratio")
-    ctor = find_calls(ar.node, lambda c: u(c.func) == "AvailabilityRatio")
+    if len(ar.params) != 4:
+        raise AnalysisError(f"{ar.qual}: expected (self, components, available_soc, excl_bounds)")
+    comps, excl = ar.params[1], ar.params[3]
+    node = prepared(prog, ar)
+    pair_fields = record_fields(prog, BDA_MOD, "InvBatPair")
+    ctor_fields = record_fields(prog, BDA_MOD, "AvailabilityRatio")
+
+    def norm(e: ast.AST) -> ast.AST:
+        return index_fields(e, GROUP, pair_fields)
+
+    def shape_ok(c: ast.Call) -> bool:
+        mp = positional(c, ctor_fields).get("min_power")
+        args = simple_call(norm(mp), ("max",), 2) if mp is not None else None
+        if args is None:
+            return False
+        kinds = []
+        for a in args:
+            if u(a) == f"{excl}[{GROUP}[0].component_id]":
+                kinds.append("bat")
+                continue
+            inner = simple_call(a, ("min",), 1)
+            roots: list[ast.AST] = []
+            el = elem_of(inner[0], roots, None, norm) if inner is not None else None
+            if el is not None and [u(r) for r in roots] == [f"{GROUP}[1]"] \
+                    and u(norm(el)) == f"{excl}[<elem of {GROUP}[1]>.component_id]":
+                kinds.append("min_inv")
+        return sorted(kinds) == ["bat", "min_inv"]
+
+    loops = [s for s in walk_no_nested(node) if isinstance(s, ast.For)
+             and find_calls(s, lambda c: _callee(c) == "AvailabilityRatio")]
+    loops = [s for s in loops if not any(t is not s and t in list(walk_no_nested(s)) for t in loops)]  # innermost
     ok = False
-    if len(ctor) == 1:
-        params = ["battery_id", "inverter_ids", "ratio", "min_power"]
-        args = dict(zip(params, ctor[0].args))
-        args.update({k.arg: k.value for k in ctor[0].keywords if k.arg})
-        mp = args.get("min_power")
-        if isinstance(mp, ast.Call) and u(mp.func) == "max" and len(mp.args) == 2 and not mp.keywords:
-            shapes = []
-            for a in mp.args:
-                if isinstance(a, ast.Subscript) and u(a.value) == "excl_bounds":
-                    shapes.append(("bat", u(a.slice)))
-                elif isinstance(a, ast.Call) and u(a.func) == "min" and len(a.args) == 1 and isinstance(
-                        a.args[0], (ast.GeneratorExp, ast.ListComp)) and len(a.args[0].generators) == 1 \
-                        and not a.args[0].generators[0].ifs and isinstance(a.args[0].elt, ast.Subscript) \
-                        and u(a.args[0].elt.value) == "excl_bounds" \
-                        and u(a.args[0].elt.slice) == u(a.args[0].generators[0].target):
-                    shapes.append(("min_inv", u(a.args[0].generators[0].iter)))
-            ok = sorted(k for k, _ in shapes) == ["bat", "min_inv"] and all(
-                ".component_id" in v if k == "bat" else "inverter" in v for k, v in shapes)
+    if len(loops) == 1 and is_name(loops[0].iter, comps):
+        env = bind_target(loops[0].target, name(GROUP))
+        if env is not None:
+            try:
+                ctors = [c.node for p, _st in sym_block(loops[0].body, env)
+                         for c in p.calls(lambda c: _callee(c) == "AvailabilityRatio")]
+            except SymUnsupported:
+                ctors = []
+            ok = bool(ctors) and all(shape_ok(c) for c in ctors)  # type: ignore[arg-type]
     return ar, ok
+
+
+# ------------------------------------------------------------------------------------------ C17.AGG
+def _aggregate_input_ok(prog: Program) -> tuple[Any, bool]:
+    """Enforced side: AggregatedBatteryData.power_bounds = aggregator(PowerBounds of *each* battery given,
+    each bound read from the battery metric of the same name)."""
+    abd = prog.func(f"{BDA_MOD}:AggregatedBatteryData.__init__")
+    if len(abd.params) != 2:
+        raise AnalysisError(f"{abd.qual}: expected (self, batteries)")
+    bats = abd.params[1]
+    pb_fields = record_fields(prog, RESULT_MOD, "PowerBounds")
+    n = 0
+    ok = True
+    for p in returns_of(prepared(prog, abd), abd.qual):
+        writes = [e.node.elts[1] for e in p.effects if e.kind == "write"  # type: ignore[attr-defined]
+                  and u(e.node.elts[0]) == f"{abd.params[0]}.power_bounds"]  # type: ignore[attr-defined]
+        if len(writes) != 1:
+            return abd, False
+        n += 1
+        v = writes[0]
+        good = _is_aggregator(prog, abd.module, v)
+        if good:
+            roots: list[ast.AST] = []
+            el = elem_of(v.args[0], roots)  # type: ignore[attr-defined]
+            good = el is not None and len(roots) == 1 and is_name(roots[0], bats) and isinstance(el, ast.Call) \
+                and _callee(el) == "PowerBounds"
+            if good:
+                a = positional(el, pb_fields)  # type: ignore[arg-type]
+                good = set(a) == set(pb_fields) and all(
+                    u(a[f]) == f"<elem of {bats}>.power_{f}_bound" for f in pb_fields)
+        ok = ok and good
+    return abd, ok and n > 0
+
+
+def _pair_data_ok(prog: Program) -> tuple[Any, bool]:
+    """_get_battery_inverter_data(batteries, inverters) -> InvBatPair(AggregatedBatteryData(latest data of
+    every battery given), latest data of every inverter given)."""
+    gbi = prog.func(f"{BMM}:BatteryManager._get_battery_inverter_data")
+    if len(gbi.params) != 3:
+        raise AnalysisError(f"{gbi.qual}: expected (self, battery_ids, inverter_ids)")
+    me, bids, iids = gbi.params
+    pair_fields = record_fields(prog, BDA_MOD, "InvBatPair")
+    n = 0
+    ok = True
+    for p in returns_of(prepared(prog, gbi), gbi.qual):
+        r = p.ret
+        if r is None or _is_none(r):
+            continue
+        n += 1
+        good = isinstance(r, ast.Call) and _callee(r) == "InvBatPair"
+        if good:
+            a = positional(r, pair_fields)  # type: ignore[arg-type]
+            bat, inv = a.get(pair_fields[0]), a.get(pair_fields[1])
+            good = isinstance(bat, ast.Call) and _callee(bat) == "AggregatedBatteryData" and len(bat.args) == 1 \
+                and not bat.keywords and inv is not None
+            if good:
+                rb: list[ast.AST] = []
+                ri: list[ast.AST] = []
+                eb, ei = elem_of(bat.args[0], rb), elem_of(inv, ri)  # type: ignore[union-attr,arg-type]
+                good = eb is not None and ei is not None and [u(x) for x in rb] == [bids] and [u(x) for x in ri] == [iids] \
+                    and u(eb) == f"{me}._battery_caches[<elem of {bids}>].get()" \
+                    and u(ei) == f"{me}._inverter_caches[<elem of {iids}>].get()"
+        ok = ok and good
+    return gbi, ok and n > 0
+
+
+def _enforced_groups(prog: Program) -> tuple[Any, bool, bool]:
+    """_get_components_data: (fn, groups form a set of _bat_bats_map images, every group's data is read
+    for the whole group and the inverters of one of its batteries)."""
+    gcd = prog.func(f"{BMM}:BatteryManager._get_components_data")
+    node = prepared(prog, gcd)
+    gbi = prog.func(f"{BMM}:BatteryManager._get_battery_inverter_data")
+
+    def is_data_call(c: ast.Call) -> bool:
+        return method_call(c, gcd.params[0], gbi.name)
+
+    loops = [s for s in strip_doc(node.body) if isinstance(s, ast.For) and find_calls(s, is_data_call)]
+    if len(loops) != 1 or not isinstance(loops[0].target, ast.Name):
+        return gcd, False, False
+    loop = loops[0]
+    lp = loop_passes(node, loop)
+    if lp is None:
+        return gcd, False, False
+    it, _env, _full, passes = lp
+    g = loop.target.id
+    el = set_elem(it)
+    once = el is not None and isinstance(el, ast.Subscript) and u(el.value) == f"{gcd.params[0]}._bat_bats_map" \
+        and isinstance(el.slice, ast.Name) and el.slice.id.startswith("<elem of ")
+    calls = [c.node for p in passes for c in p.calls(is_data_call)]
+    whole = bool(calls)
+    for c in calls:
+        a = positional(c, gbi.params[1:])  # type: ignore[arg-type]
+        whole = whole and len(c.args) + len(c.keywords) == 2 and set(a) == set(gbi.params[1:]) \
+            and u(a[gbi.params[1]]) == g \
+            and u(a[gbi.params[2]]) == f"{gcd.params[0]}._bat_invs_map[next(iter({g}))]"
+    return gcd, once, whole
+
+
+def _metric_tables(prog: Program, adv: dict[str, Any]) -> tuple[Any, dict[str, bool]]:
+    """Writer's and reader's positional tables: `results[i] -> PowerBounds field` in the closure, where
+    results[i] is the value of the i-th requested metric, against the order of the metric id lists."""
+    afn, vfn = adv["fn"], adv["validated"]
+    pb_fields = record_fields(prog, RESULT_MOD, "PowerBounds")
+    metric_ids = vfn.args.args[1].arg
+    pb = find_calls(vfn, lambda c: _callee(c) == "PowerBounds")
+    pos: dict[int, str] = {}
+    bases: set[str] = set()
+    reader_ok = len(pb) == 1
+    if reader_ok:
+        a = positional(pb[0], pb_fields)
+        for f, v in a.items():
+            if isinstance(v, ast.Subscript) and isinstance(v.value, ast.Name) and isinstance(v.slice, ast.Constant) \
+                    and isinstance(v.slice.value, int):
+                pos[v.slice.value] = f
+                bases.add(v.value.id)
+        reader_ok = set(a) == set(pb_fields) and sorted(pos) == [0, 1, 2, 3] and len(bases) == 1
+    if reader_ok:
+        # the indexed list holds, in request order, `<data>.get(<i-th metric id>)`
+        res = next(iter(bases))
+        inits = [s for s in walk_no_nested(vfn) if isinstance(s, (ast.Assign, ast.AnnAssign)) and any(
+            is_name(t, res) for t in (s.targets if isinstance(s, ast.Assign) else [s.target]))]
+        reader_ok = len(inits) == 1 and isinstance(inits[0].value, ast.List) and not inits[0].value.elts
+        appends = find_calls(vfn, lambda c: method_call(c, res, "append"))
+        loops = [s for s in walk_no_nested(vfn) if isinstance(s, ast.For) and is_name(s.iter, metric_ids)
+                 and isinstance(s.target, ast.Name) and find_calls(s, lambda c: method_call(c, res, "append"))]
+        reader_ok = reader_ok and len(appends) == 1 and len(loops) == 1
+        if reader_ok:
+            try:
+                vals = [c.node.args for p, _st in sym_block(loops[0].body)
+                        for c in p.calls(lambda c: method_call(c, res, "append"))]
+            except SymUnsupported:
+                vals = []
+            reader_ok = bool(vals) and all(
+                len(v) == 1 and isinstance(v[0], ast.Call) and isinstance(v[0].func, ast.Attribute)
+                and v[0].func.attr == "get" and len(v[0].args) == 1 and not v[0].keywords
+                and is_name(v[0].args[0], loops[0].target.id) for v in vals)  # type: ignore[union-attr]
+    init = prog.func(f"{MC}:PowerBoundsCalculator.__init__")
+    written: dict[str, set[tuple[str, ...] | None]] = {"_battery_metrics": set(), "_inverter_metrics": set()}
+    for p in returns_of(prepared(prog, init), init.qual):
+        for attr in written:
+            ws = [e.node.elts[1] for e in p.effects if e.kind == "write"  # type: ignore[attr-defined]
+                  and u(e.node.elts[0]) == f"{init.params[0]}.{attr}"]  # type: ignore[attr-defined]
+            if len(ws) == 1 and isinstance(ws[0], ast.List):
+                written[attr].add(tuple(u(x).split(".")[-1] for x in ws[0].elts))
+            else:
+                written[attr].add(None)
+    out = {}
+    for attr, prefix in (("_battery_metrics", "POWER_"), ("_inverter_metrics", "ACTIVE_POWER_")):
+        lst = next(iter(written[attr])) if len(written[attr]) == 1 else None
+        out[attr] = reader_ok and lst is not None and len(lst) == 4 and all(
+            nm == prefix + pos[i].upper() + "_BOUND" for i, nm in enumerate(lst))
+    return init, out
 
 
 def check_agg(run: Run, prog: Program) -> None:
@@ -149,8 +392,8 @@ def check_agg(run: Run, prog: Program) -> None:
     afn, efn = adv["fn"], enf["fn"]
     run.analysed(afn.qual)
     run.analysed(efn.qual)
-    names = {"il": "inclusion_bounds_lower", "iu": "inclusion_bounds_upper",
-             "el": "exclusion_bounds_lower", "eu": "exclusion_bounds_upper"}
+    names = {"il": "inclusion_bounds.lower", "iu": "inclusion_bounds.upper",
+             "el": "exclusion_bounds.lower", "eu": "exclusion_bounds.upper"}
     want_adv = {
         "il": ("sum_g", "max", (("leaf", ("bat", "il")), ("sum_i", ("inv", "il")))),
         "iu": ("sum_g", "min", (("leaf", ("bat", "iu")), ("sum_i", ("inv", "iu")))),
@@ -159,7 +402,7 @@ def check_agg(run: Run, prog: Program) -> None:
     }
     efield = {"il": "inclusion_lower", "iu": "inclusion_upper", "el": "exclusion_lower", "eu": "exclusion_upper"}
     for f in ("il", "iu"):
-        a, e = adv["terms"].get(names[f]), enf["terms"].get(efield[f])
+        a, e = adv["terms"].get(f), enf["terms"].get(efield[f])
         run.check(a is not None and a == e, "C17.AGG", afn.qual, f"{names[f]} term",
                   f"advertised and enforced inclusion {'lower' if f == 'il' else 'upper'} bounds are not the "
                   f"same aggregate: advertised {a}, enforced {e}", node=adv["loop"], file=afn.file,
@@ -169,7 +412,7 @@ def check_agg(run: Run, prog: Program) -> None:
                   node=adv["loop"], file=afn.file)
     for f, op, lemma in (("eu", "max", "Σ_g max(a_g, b_g) >= max(Σ a_g, Σ b_g)"),
                          ("el", "min", "Σ_g min(a_g, b_g) <= min(Σ a_g, Σ b_g)")):
-        a, e = adv["terms"].get(names[f]), enf["terms"].get(efield[f])
+        a, e = adv["terms"].get(f), enf["terms"].get(efield[f])
         ok_a = a == want_adv[f]
         # enforced: either the same per-group aggregate (identical zones) or op(Σ_g battery, Σ_all inverter),
         # which the lemma puts inside the advertised one
@@ -185,98 +428,56 @@ def check_agg(run: Run, prog: Program) -> None:
     run.check(ok, "C17.AGG", ar.qual, "min_power_g = max(b_g, min_i x_i) <= max(b_g, Σ_i x_i) = advertised share",
               "a group's minimum power is not max(battery exclusion, smallest inverter exclusion): it may "
               "exceed the group's share of the advertised exclusion bound", node=ar.node, file=ar.file)
-    # same battery aggregation on both sides
-    m = prog.module(MC)
-    tgt = prog.resolve_name(m, "_aggregate_battery_power_bounds")
-    agg_calls = find_calls(afn.node, lambda c: u(c.func) == "_aggregate_battery_power_bounds")
-    abd = prog.func(f"{BDA_MOD}:AggregatedBatteryData.__init__")
-    e_calls = find_calls(abd.node, lambda c: u(c.func) == "_aggregate_battery_power_bounds")
-    ok = getattr(tgt, "qual", None) == f"{BDA_MOD}:_aggregate_battery_power_bounds" and len(agg_calls) == 1 \
-        and len(e_calls) == 1
-    run.check(ok, "C17.AGG", afn.qual, "both sides aggregate a group's batteries with _aggregate_battery_power_bounds",
-              "advertised and enforced bounds aggregate the batteries of a group with different functions",
+    # same battery aggregation on both sides (the advertised battery leaves are only recognised on a call of
+    # the shared aggregator; the enforced aggregate must be fed each battery's four bounds)
+    n_bat = sum(1 for k, _i, _m in adv["prov"] if k == "bat")
+    abd, ok = _aggregate_input_ok(prog)
+    run.check(ok and n_bat >= 1, "C17.AGG", afn.qual, "both sides aggregate a group's batteries with _aggregate_battery_power_bounds",
+              "advertised and enforced bounds aggregate the batteries of a group with different functions "
+              "(or the enforced aggregate is not fed every battery's own four bounds)",
               node=afn.node, file=afn.file)
-    gbi = prog.func(f"{BMM}:BatteryManager._get_battery_inverter_data")
-    ok = any(u(r.value).replace(" ", "") == "InvBatPair(AggregatedBatteryData(battery_data),inverter_data)"
-             for r in body_walk(gbi.node) if isinstance(r, ast.Return))
+    gbi, ok = _pair_data_ok(prog)
     run.check(ok, "C17.AGG", gbi.qual, "InvBatPair(AggregatedBatteryData(battery_data), inverter_data)",
-              "the enforced side does not aggregate the group's batteries through AggregatedBatteryData",
-              node=gbi.node, file=gbi.file)
+              "the enforced side does not aggregate the group's batteries through AggregatedBatteryData "
+              "(all batteries and all inverters it was given)", node=gbi.node, file=gbi.file)
     # every group counted once, with all its batteries and inverters, on both sides
-    bs = [s for s in body_walk(afn.node) if isinstance(s, ast.Assign) and u(s.targets[0]) == "battery_sets"]
-    ok = len(bs) == 1 and isinstance(bs[0].value, ast.SetComp) and u(bs[0].value.elt) == "self._bat_bats_map[battery_id]" \
-        and u(bs[0].value.generators[0].iter) == afn.params[2] and not bs[0].value.generators[0].ifs
+    me, working = afn.params[0], afn.params[2]
+    groups = adv["groups"]
+    ok = bool(groups)
+    for g in groups:
+        el = set_elem(g)
+        ok = ok and el is not None and u(el) == f"{me}._bat_bats_map[<elem of {working}>]"
     run.check(ok, "C17.AGG", afn.qual, "battery_sets = {bat_bats_map[b] for b in working_batteries}",
               "the advertised side does not count every battery group exactly once (a set of groups): a "
               "group with several working batteries would be added once per battery", node=afn.node, file=afn.file)
-    gcd = prog.func(f"{BMM}:BatteryManager._get_components_data")
+    gcd, once, whole = _enforced_groups(prog)
     run.analysed(gcd.qual)
-    bs2 = [s for s in body_walk(gcd.node) if isinstance(s, (ast.Assign, ast.AnnAssign))
-           and u(s.targets[0] if isinstance(s, ast.Assign) else s.target) == "battery_sets"]
-    ok = len(bs2) == 1 and isinstance(bs2[0].value, ast.Call) and u(bs2[0].value.func) in ("frozenset", "set") \
-        and isinstance(bs2[0].value.args[0], ast.GeneratorExp) \
-        and u(bs2[0].value.args[0].elt).startswith("self._bat_bats_map[") and not bs2[0].value.args[0].generators[0].ifs
-    run.check(ok, "C17.AGG", gcd.qual, "battery_sets = frozenset(bat_bats_map[b] for b in working_batteries)",
+    run.check(once, "C17.AGG", gcd.qual, "battery_sets = frozenset(bat_bats_map[b] for b in working_batteries)",
               "the enforced side does not count every battery group exactly once", node=gcd.node, file=gcd.file)
-    loop_a = adv["loop"]
-    gv = u(loop_a.target)
-    calls_a = [c for c in find_calls(loop_a, lambda c: u(c.func) == "get_bounds_list")]
-    ok = sorted(u(c.args[0]) for c in calls_a) == sorted([gv, "inverter_ids"]) and any(
-        isinstance(s, ast.Assign) and u(s.targets[0]) == "inverter_ids"
-        and u(s.value).replace(" ", "") == f"self._bat_inv_map[next(iter({gv}))]" for s in loop_a.body)
+    want_prov = {"bat": (f"<elem of {GROUP}>", f"{me}._battery_metrics"),
+                 "inv": (f"<elem of {me}._bat_inv_map[next(iter({GROUP}))]>", f"{me}._inverter_metrics")}
+    kinds = {k for k, _i, _m in adv["prov"]}
+    ok = kinds == {"bat", "inv"} and all((i, m) == want_prov[k] for k, i, m in adv["prov"])
     run.check(ok, "C17.AGG", afn.qual, "advertised side reads all batteries and inverters of the group",
-              "the advertised side does not read the whole group's batteries and inverters", node=loop_a, file=afn.file)
-    loops_e = [s for s in body_walk(gcd.node) if isinstance(s, ast.For) and u(s.iter) == "battery_sets"]
-    ok = len(loops_e) == 1
-    if ok:
-        le = loops_e[0]
-        ev = u(le.target)
-        dcalls = find_calls(le, lambda c: method_call(c, "self", "_get_battery_inverter_data"))
-        ok = len(dcalls) == 1 and [u(a) for a in dcalls[0].args] == [ev, "inverter_ids"] and any(
-            isinstance(s, (ast.Assign, ast.AnnAssign)) and u(s.targets[0] if isinstance(s, ast.Assign) else s.target) == "inverter_ids"
-            and u(s.value).replace(" ", "") == f"self._bat_invs_map[next(iter({ev}))]" for s in le.body)
-    run.check(ok, "C17.AGG", gcd.qual, "enforced side reads all batteries and inverters of the group",
+              "the advertised side does not read the whole group's batteries and inverters (each with its own "
+              f"metric list): {sorted(set(adv['prov']))}", node=adv["loop"], file=afn.file)
+    run.check(whole, "C17.AGG", gcd.qual, "enforced side reads all batteries and inverters of the group",
               "the enforced side reads a different battery/inverter set for a group than the advertised side "
               "(e.g. only the working batteries of the group): for the same component data the two "
               "inclusion bounds differ", node=gcd.node, file=gcd.file)
     # positional tables of the calculator
-    init = prog.func(f"{MC}:PowerBoundsCalculator.__init__")
-    gvb = None
-    for n in ast.walk(afn.node):
-        if isinstance(n, ast.FunctionDef) and n.name == "get_validated_bounds":
-            gvb = n
-    if gvb is None:
-        raise AnalysisError(f"{afn.qual}: get_validated_bounds not found")
-    pb = find_calls(gvb, lambda c: u(c.func) == "PowerBounds")
-    pos = {}
-    if len(pb) == 1:
-        for k in pb[0].keywords:
-            if isinstance(k.value, ast.Subscript) and u(k.value.value) == "results":
-                pos[int(u(k.value.slice))] = k.arg
-    for attr, prefix in (("_battery_metrics", "POWER_"), ("_inverter_metrics", "ACTIVE_POWER_")):
-        lst = [s.value for s in body_walk(init.node) if isinstance(s, ast.Assign) and u(s.targets[0]) == f"self.{attr}"]
-        ok = len(lst) == 1 and isinstance(lst[0], ast.List) and len(lst[0].elts) == 4
-        if ok:
-            for i, e in enumerate(lst[0].elts):
-                name = u(e).split(".")[-1]
-                want = (pos.get(i) or "").upper() + "_BOUND"
-                ok = ok and name == prefix + want
+    init, tables = _metric_tables(prog, adv)
+    for attr, ok in tables.items():
         run.check(ok, "C17.AGG", init.qual, f"{attr} order matches PowerBounds(results[0..3])",
                   f"the metric list {attr} and the positional mapping results[i] -> PowerBounds field disagree: "
                   "a bound would be read from the wrong metric", node=init.node, file=init.file)
-    # result wiring
-    rets = [r for r in body_walk(afn.node) if isinstance(r, ast.Return) and "inclusion_bounds=timeseries.Bounds" in u(r.value).replace(" ", "")]
-    ok = len(rets) == 1
-    if ok:
-        t = u(rets[0].value).replace(" ", "")
-        ok = "Bounds(Power.from_watts(inclusion_bounds_lower),Power.from_watts(inclusion_bounds_upper))" in t and \
-            "Bounds(Power.from_watts(exclusion_bounds_lower),Power.from_watts(exclusion_bounds_upper))" in t
-    run.check(ok, "C17.AGG", afn.qual, "SystemBounds(inclusion=(il, iu), exclusion=(el, eu))",
+    # result wiring: the roles above are *defined* by the slot each aggregate is returned in
+    run.check(adv["wiring_ok"], "C17.AGG", afn.qual, "SystemBounds(inclusion=(il, iu), exclusion=(el, eu))",
               "the streamed SystemBounds does not carry the four aggregates in their places", node=afn.node, file=afn.file)
 
 
 def check_acc(run: Run, prog: Program) -> None:
-    from ._admission import explore_admission
+    from ._admission import explore_admission, reached_bounds
     from .c03 import _report_orderings
 
     # SystemBounds.__contains__ / Bounds.__contains__ are interpreted too (order-only code)
@@ -311,8 +512,10 @@ def check_acc(run: Run, prog: Program) -> None:
         return None
 
     fn, outs = explore_admission(prog, post, extra)
+    # the obligation lives on the paths that get as far as the bounds comparison (the id-validation
+    # prefix answers Error, never OutOfBounds); anything raising or violating is kept whatever it reached
+    outs = [o for o in outs if reached_bounds(o) or o.kind == "raise" or o.post is not None]
     _report_orderings(run, "C17.ACC", fn, outs, "advertised membership implies admission")
-    n_in = sum(1 for o in outs if o.kind == "return")
     if len(outs) < 30:
         raise AnalysisError(f"C17.ACC: only {len(outs)} abstract paths")
     run.extra_cov.setdefault("abstract_paths", {})["admission"] = len(outs)
